@@ -158,10 +158,12 @@ CLAIMED = {
     "C04": dict(
         text="Theorems: forward motion/delete by n from a boundary covers exactly the first min(n,remaining) clusters (and "
              "the single notification names them); motion targets are character boundaries on the right side of the "
-             "cursor; end-of-line brackets the cursor with no line break inside; the count-iteration law is REFUTED by a "
-             "kernel-checked witness (known finding K_word_count). PARTIAL: word starts/ends under the three definitions, "
-             "line ranges, n-th occurrence char search and kill = copy range are decided by the declarative + metamorphic "
-             "oracle on the implementation (with its own segmentation and Unicode tables) and by model correspondence.",
+             "cursor; end-of-line brackets the cursor with no line break inside; KILL = COPY (C04_kill_is_copy): for EVERY "
+             "Movement, buffer and boundary cursor, if copy returns t then kill removes exactly t where it lay, changes nothing "
+             "else and leaves the cursor where t began; the count-iteration law is REFUTED by a kernel-checked witness (known "
+             "finding K_word_count). PARTIAL: WHERE a word / line / character-search movement ends (word starts/ends under the "
+             "three definitions, line ranges, n-th occurrence) is decided by the declarative oracle on the implementation (with "
+             "its own segmentation and Unicode tables) and by model correspondence.",
         note=COMMON_NOTE + "Known finding K_word_count is reported as KNOWN-FINDING; its class is pinned by the model correspondence.",
         technique="Coq proof over cluster lists + declarative/metamorphic oracle + extracted-model differential check"),
     "C09": dict(
